@@ -182,10 +182,21 @@ func glueRun(a []string, probe bool) (ret string) {
 			}
 			var word string
 			panicked := false
+			// a panic raised by the FPA rule's own script (dir, adjacent, the cairn script): known finding
+			// C07-fpa-script-panics-on-foreign-record on a tree without fixes/C07-fpa-script-declines.diff; the model is of the patched
+			// code and never prints `scriptpanic:` (with the patch the scripts decline and nothing reaches this recover)
+			scriptPanic := ""
 			func() {
 				defer func() {
-					if recover() != nil {
+					if r := recover(); r != nil {
 						panicked = true
+						if msg, ok := r.(string); ok {
+							switch msg {
+							case "bad dir() call", "no empty adjacency", "no square for black's cairn stone",
+								"no center square between the cairn stones":
+								scriptPanic = strings.ReplaceAll(msg, " ", "_")
+							}
+						}
 					}
 				}()
 				ret, rec := v.Call(p, c.ans, c.chk, probe)
@@ -204,7 +215,11 @@ func glueRun(a []string, probe bool) (ret string) {
 				}
 			}()
 			if panicked {
-				out = append(out, "panic")
+				if scriptPanic != "" {
+					out = append(out, "scriptpanic:"+scriptPanic)
+				} else {
+					out = append(out, "panic")
+				}
 				return strings.Join(out, " ")
 			}
 			out = append(out, word)
